@@ -3,6 +3,7 @@ package vc
 import (
 	"fmt"
 	"go/types"
+	"sort"
 	"strings"
 
 	"golang.org/x/tools/go/ssa"
@@ -29,6 +30,15 @@ func (f *frame) execCall(x *ssa.Call, in string, st *State) {
 		recv := f.val(cc.Value)
 		vc.obligeIn(f, "nil", "invoke:"+cc.Method.Name()+":"+vc.anchorAt(f.fn, x.Pos(), "call"), in, Not(Eq(App("if.tag", recv.T), "0")), x.Pos(), "method call on possibly nil interface")
 		if f.ifaceSpecCall(x, recv, args, in, st) {
+			return
+		}
+		if r, ok := f.ifaceContractCall(x, recv, args, in, st); ok {
+			setResult(r)
+			return
+		}
+		if vc.isPureExternal("(" + cc.Value.Type().String() + ")." + cc.Method.Name()) {
+			vc.note("interface call (%s).%s treated as pure with unconstrained result", cc.Value.Type(), cc.Method.Name())
+			setResult(f.freshVal(x.Name(), x.Type(), in, st))
 			return
 		}
 		vc.note("interface call %s.%s in %s: havoc (no interface contract)", cc.Value.Type(), cc.Method.Name(), FuncName(f.fn))
@@ -308,7 +318,7 @@ func (f *frame) contractCall(callee *ssa.Function, spec *FuncSpec, args []Val, i
 		}
 	}
 	post.setResults(callee, res)
-	for _, c := range spec.Ensures {
+	for _, c := range vc.expandForeach(spec, post) {
 		t := vc.evalSpec(post, c.Expr)
 		vc.assume(in, t.T)
 	}
@@ -328,6 +338,7 @@ func (f *frame) havocAllPreservingLocals(st *State, in, why string) {
 			}
 		}
 	}
+	sort.Strings(keep)
 	for _, srt := range vc.allHeaps() {
 		h := vc.fresh(f.prefix+"H"+srt+"_havoc", vc.heapSort(srt))
 		if len(keep) > 0 {
@@ -459,9 +470,10 @@ func (f *frame) execAppend(x *ssa.Call, args []Val, in string, st *State) {
 	newCap := vc.fresh(f.prefix+x.Name()+"_cap", "Int")
 	vc.assert(App(">=", newCap, newLen))
 	// appending nothing to a slice returns it unchanged (also for nil)
+	rFresh := vc.define(f.prefix+x.Name()+"_fr", "Slice", App("mk-slice", fresh, "0", newLen, newCap))
 	res := Ite(Eq(tlen, "0"), s.T, Ite(fits,
 		App("mk-slice", App("sl.base", s.T), App("sl.off", s.T), newLen, App("sl.cap", s.T)),
-		App("mk-slice", fresh, "0", newLen, newCap)))
+		rFresh))
 	f.name(x, res)
 	r := f.vals[x].T
 	// fresh branch: old contents copied (assumed on the pre-store heap; fresh cells are otherwise unconstrained)
@@ -472,9 +484,9 @@ func (f *frame) execAppend(x *ssa.Call, args []Val, in string, st *State) {
 			continue
 		}
 		h := st.H[lf.sort]
-		src := applySteps(App("Elem", App("sl.base", s.T), App("+", App("sl.off", s.T), "i!")), lf.steps)
-		dst := applySteps(App("Elem", fresh, "i!"), lf.steps)
-		vc.assume(And(in, Not(fits)), fmt.Sprintf("(forall ((i! Int)) (! (=> (and (<= 0 i!) (< i! %s)) (= (select %s %s) (select %s %s))) :pattern ((select %s %s))))", slen, h, dst, h, src, h, dst))
+		src := applySteps(App("at_", s.T, "i!"), lf.steps)
+		dst := applySteps(App("at_", rFresh, "i!"), lf.steps)
+		vc.assume(And(in, Not(fits)), fmt.Sprintf("(forall ((i! Int)) (! (=> (and (<= 0 i!) (< i! %s)) (= (select %s %s) (select %s %s))) :pattern ((at_ %s i!))))", slen, h, dst, h, src, rFresh))
 	}
 	// now write the appended elements at r[len(s)+j]
 	k, constLen := f.constSliceLen(x.Call.Args[1])
@@ -483,37 +495,39 @@ func (f *frame) execAppend(x *ssa.Call, args []Val, in string, st *State) {
 			srcLoc := App("Elem", App("sl.base", t.T), App("+", App("sl.off", t.T), fmt.Sprint(j)))
 			v := vc.loadVal(st, srcLoc, et, in, true)
 			vn := vc.define(f.prefix+x.Name()+"_elem", vc.sorts.SortOf(et), v)
-			dstLoc := App("Elem", App("sl.base", r), App("+", App("sl.off", r), App("+", slen, fmt.Sprint(j))))
+			dstLoc := App("at_", r, App("+", slen, fmt.Sprint(j)))
+			if len(f.declFrames) > 0 {
+				f.checkWrite(x.Block(), dstLoc, et, in, x.Pos(), "append:"+vc.anchorAt(f.fn, x.Pos(), "call"))
+			}
 			vc.storeVal(st, dstLoc, et, vn)
 		}
 		return
 	}
 	// general case: havoc the target range
+	if f.inDeclLoop(x.Block()) {
+		vc.unsupported("append of a slice of unknown length inside a loop with a declared assigns frame")
+	}
+	pre := st.Clone()
+	newH := f.bulkHeaps(st, pre, et, "app", func(lf leaf) string {
+		pat := modPat{sort: lf.sort, base: App("sl.base", r), steps: append([]step{{elem: true}}, lf.steps...)}
+		// only indices in [off+len(s), off+newLen) change
+		idx := idxOfElemStep("l!", len(lf.steps))
+		return And(pat.matchCond("l!"), App("<=", App("+", App("sl.off", r), slen), idx), App("<", idx, App("+", App("sl.off", r), newLen)))
+	})
 	for _, lf := range lvs {
 		if hasElemStep(lf.steps) {
 			continue
 		}
-		old := st.H[lf.sort]
-		h := vc.fresh(f.prefix+"H"+lf.sort+"_app", "(Array Loc "+lf.sort+")")
-		pat := modPat{sort: lf.sort, base: App("sl.base", r), steps: append([]step{{elem: true}}, lf.steps...)}
-		// only indices in [off+len(s), off+newLen) change
-		inRange := func(l string) string {
-			idx := idxOfElemStep(l, len(lf.steps))
-			return And(App("<=", App("+", App("sl.off", r), slen), idx), App("<", idx, App("+", App("sl.off", r), newLen)))
-		}
-		vc.assert(fmt.Sprintf("(forall ((l! Loc)) (! (=> (not (and %s %s)) (= (select %s l!) (select %s l!))) :pattern ((select %s l!))))", pat.matchCond("l!"), inRange("l!"), h, old, h))
+		old := pre.H[lf.sort]
+		h := newH[lf.sort]
 		var srcv string
-		dst := applySteps(App("Elem", App("sl.base", r), App("+", App("sl.off", r), App("+", slen, "j!"))), lf.steps)
+		dst := applySteps(App("at_", r, "x!"), lf.steps)
 		if tIsStr {
-			srcv = App("str.at_", t.T, "j!")
+			srcv = App("str.at_", t.T, App("-", "x!", slen))
 		} else {
-			srcv = App("select", old, applySteps(App("Elem", App("sl.base", t.T), App("+", App("sl.off", t.T), "j!")), lf.steps))
+			srcv = App("select", old, applySteps(App("at_", t.T, App("-", "x!", slen)), lf.steps))
 		}
-		vc.assume(in, fmt.Sprintf("(forall ((j! Int)) (! (=> (and (<= 0 j!) (< j! %s)) (= (select %s %s) %s)) :pattern ((select %s %s))))", tlen, h, dst, srcv, h, dst))
-		st.H[lf.sort] = h
-		if lf.sort == "Loc" || lf.sort == "Slice" || lf.sort == "Iface" {
-			vc.assertHeapWF(&State{H: map[string]string{lf.sort: h}, Top: st.Top}, []modPat{{sort: lf.sort}})
-		}
+		vc.assume(in, fmt.Sprintf("(forall ((x! Int)) (! (=> (and (<= %s x!) (< x! %s)) (= (select %s %s) %s)) :pattern ((at_ %s x!))))", slen, newLen, h, dst, srcv, r))
 	}
 }
 
@@ -572,29 +586,30 @@ func (f *frame) execCopy(x *ssa.Call, args []Val, in string, st *State) {
 	}
 	n := vc.define(f.prefix+x.Name()+"_n", "Int", Ite(App("<=", App("sl.len", dst.T), slen), App("sl.len", dst.T), slen))
 	f.set(x, n)
+	if f.inDeclLoop(x.Block()) {
+		vc.unsupported("copy inside a loop with a declared assigns frame")
+	}
+	pre := st.Clone()
+	newH := f.bulkHeaps(st, pre, et, "copy", func(lf leaf) string {
+		pat := modPat{sort: lf.sort, base: App("sl.base", dst.T), steps: append([]step{{elem: true}}, lf.steps...)}
+		idx := idxOfElemStep("l!", len(lf.steps))
+		return And(pat.matchCond("l!"), App("<=", App("sl.off", dst.T), idx), App("<", idx, App("+", App("sl.off", dst.T), n)))
+	})
 	for _, lf := range vc.leaves(et) {
 		if hasElemStep(lf.steps) {
 			vc.unsupported("copy of elements containing arrays")
 			continue
 		}
-		old := st.H[lf.sort]
-		h := vc.fresh(f.prefix+"H"+lf.sort+"_copy", "(Array Loc "+lf.sort+")")
-		pat := modPat{sort: lf.sort, base: App("sl.base", dst.T), steps: append([]step{{elem: true}}, lf.steps...)}
-		idx := idxOfElemStep("l!", len(lf.steps))
-		inRange := And(App("<=", App("sl.off", dst.T), idx), App("<", idx, App("+", App("sl.off", dst.T), n)))
-		vc.assert(fmt.Sprintf("(forall ((l! Loc)) (! (=> (not (and %s %s)) (= (select %s l!) (select %s l!))) :pattern ((select %s l!))))", pat.matchCond("l!"), inRange, h, old, h))
-		d := applySteps(App("Elem", App("sl.base", dst.T), App("+", App("sl.off", dst.T), "j!")), lf.steps)
+		old := pre.H[lf.sort]
+		h := newH[lf.sort]
+		d := applySteps(App("at_", dst.T, "j!"), lf.steps)
 		var sv string
 		if srcIsStr {
 			sv = App("str.at_", src.T, "j!")
 		} else {
-			sv = App("select", old, applySteps(App("Elem", App("sl.base", src.T), App("+", App("sl.off", src.T), "j!")), lf.steps))
+			sv = App("select", old, applySteps(App("at_", src.T, "j!"), lf.steps))
 		}
-		vc.assume(in, fmt.Sprintf("(forall ((j! Int)) (! (=> (and (<= 0 j!) (< j! %s)) (= (select %s %s) %s)) :pattern ((select %s %s))))", n, h, d, sv, h, d))
-		st.H[lf.sort] = h
-		if lf.sort == "Loc" || lf.sort == "Slice" || lf.sort == "Iface" {
-			vc.assertHeapWF(&State{H: map[string]string{lf.sort: h}, Top: st.Top}, []modPat{{sort: lf.sort}})
-		}
+		vc.assume(in, fmt.Sprintf("(forall ((j! Int)) (! (=> (and (<= 0 j!) (< j! %s)) (= (select %s %s) %s)) :pattern ((at_ %s j!))))", n, h, d, sv, dst.T))
 	}
 }
 
